@@ -47,7 +47,13 @@ def parse_file(filepath: PathLike) -> RecordsDatabase:
         p0f records database
     """
     try:
-        with open(filepath, mode="r", encoding="utf-8") as file:
+        file = open(filepath, mode="r", encoding="utf-8")
+    except (OSError, ValueError) as e:
+        # ValueError: a path open() refuses outright (embedded null byte)
+        raise DatabaseError("Can't open database file for parsing") from e
+
+    try:
+        with file:
             return _parse_file(file)
     except (OSError, UnicodeDecodeError) as e:
         raise DatabaseError("Can't read database file for parsing") from e
